@@ -103,6 +103,9 @@ def run(ctx):
         x = 10 ** rnd.uniform(-15, 15)
         y = 10 ** rnd.uniform(-7, 7)
         dB = rnd.uniform(-300, 300)
+        if i % 3 == 0:           # the whole range of positive doubles / every real dB value that has a double as its ratio
+            x = 10 ** rnd.uniform(-300, 300)
+            dB = rnd.uniform(-3000, 3000)
         with deadline(10), warnings.catch_warnings():
             warnings.simplefilter("ignore")
             ident("idb(db(x))=x", ut.idb(ut.db(x)), x)
@@ -127,6 +130,14 @@ def run(ctx):
             ident("rcos(1/2T)=1/2", float(ut.rcos(1 / (2 * Tt), al, Tt)), 0.5)
             ident("rcos-zero-beyond", float(ut.rcos((1 + al) / (2 * Tt) * rnd.uniform(1.001, 3), al, Tt)) + 1, 1.0)
             ident("rcos-array", float(ut.rcos(np.array([u, 0.0]), al, Tt)[0]) + 1, rc + 1)
+            # no roll-off: the rectangle, its edge 1/(2T) included (any value in [0,1] there, but a number)
+            for u0 in (1 / (2 * Tt), -1 / (2 * Tt), 0.3 / Tt, 0.7 / Tt, np.array([1 / (2 * Tt), 0.0, 2 / Tt])):
+                r0 = np.atleast_1d(ut.rcos(u0, 0, Tt)).astype(float)
+                if not np.all(np.isfinite(r0)):
+                    ctx.violation("rcos:alpha=0:not-a-number", f"rcos({u0!r}, 0, {Tt}) = {r0}", {"x": np.atleast_1d(u0).tolist(), "T": Tt})
+                else:
+                    order("rcos>=0", 1.0, float(r0.min()) + 1.0)
+                    order("rcos<=1", float(r0.max()) + 1.0, 2.0)
             mu, sd = rnd.uniform(-3, 3), 10 ** rnd.uniform(-2, 2)
             grid = np.linspace(mu - 10 * sd, mu + 10 * sd, 20001)
             ident("gaus-integrates-to-1", float(np.sum(ut.gaus(grid, mu, sd)) * (grid[1] - grid[0])), 1.0, tol=100)
